@@ -7,7 +7,8 @@ import json
 import numpy as np
 
 from harness.common import bitstr, rowsstr, exc_class, coq_bits, coq_list
-from harness import c09_extra
+from harness import c09_extra, c09_shapes
+from harness.c09_shapes import guard, array_problem, int_problem, describe, any_fill, fill
 
 LET = 'IXYZ'
 
@@ -39,6 +40,11 @@ def run(ctx):
                 'consumer; %d random call histories over every public function (call, overwrite result in place, '
                 'call again with equal fresh arguments, overwrite arguments in place, call again with the same '
                 'objects, look again at results kept across later calls), every answer compared with the model. '
+                'Degenerate operands on either side of every bsp / weight / conversion sweep: all-identity vectors and '
+                'stackings, stackings of 0, 1, 2, 3 operators, zero qubits, transposed-view / copied / Fortran-ordered '
+                'right operands, int64/int32/uint8/int8 entries; exhaustive stackings of 1..2 operators for n<=2; shape '
+                'and integer-ness of every answer compared with the shape-carrying model protocol as well as the values; '
+                'each case evaluated on its own (an exception or a wrong shape is a finding for that case). '
                 'nontrivial = distinct input containing Y and at least two distinct letters'
                 % (ctx.pick(3, 4), ctx.pick(120, 300), ctx.pick(5, 6), ctx.pick(5, 6), ctx.pick(8000, 80000)))
     ctx.props_obligations()
@@ -63,16 +69,23 @@ def run(ctx):
     rand_n = ctx.pick(120, 300)
     for _ in range(ctx.pick(400, 4000)):
         strings.append(rand_pauli(rng, rng.randint(5, rand_n), rng.randrange(3)))
-    for s in strings:
-        if s == '':
-            continue  # np.hsplit of an empty array is outside the documented domain
+    def single(s):
         b = pt.pauli_to_bsf(s)
+        prob = array_problem(b, (2 * len(s),))
+        if prob:
+            ctx.violation('bsf-shape', 'pauli_to_bsf result is not a binary vector of length 2n: ' + prob, {'pauli': s})
+            return
         bs = bitstr(b)
         add('pauli_to_bsf', 'to_bsf ' + s, bs, s)
         back = pt.bsf_to_pauli(b)
         add('bsf_to_pauli', 'of_bsf ' + bs, back, bs)
-        add('pauli_wt', 'pauli_wt ' + s, str(int(pt.pauli_wt(s))), s)
+        pw = pt.pauli_wt(s)
         w = pt.bsf_wt(b)
+        if int_problem(pw) or int_problem(w):
+            ctx.violation('weight', 'a weight is not an integer: pauli_wt %s, bsf_wt %s' % (describe(pw), describe(w)),
+                          {'pauli': s})
+            return
+        add('pauli_wt', 'pauli_wt ' + s, str(int(pw)), s)
         add('bsf_wt', 'bsf_wt ' + bs, str(int(w)), bs)
         ctx.count(s, nontrivial(s), 'single', {'pauli': s, 'bsf': bs} if len(s) == 5 else None)
         # direct property evaluation on the implementation
@@ -87,15 +100,26 @@ def run(ctx):
         truew = sum(1 for ch in s if ch != 'I')
         if int(w) != truew or int(pt.pauli_wt(s)) != truew:
             ctx.violation('weight', 'weight != number of non-identity factors', {'pauli': s, 'bsf_wt': int(w)})
+    for s in strings:
+        if s == '':
+            continue  # zero qubits: c09_shapes (shape-carrying protocol)
+        guard(ctx, {'fn': 'pauli_to_bsf/bsf_to_pauli/pauli_wt/bsf_wt', 'pauli': s}, lambda: single(s))
     # bsf -> pauli -> bsf on arbitrary binary vectors of even length
     for _ in range(ctx.pick(300, 3000)):
         n = rng.randint(1, 40)
-        b = np.array([rng.randint(0, 1) for _ in range(2 * n)])
-        s = pt.bsf_to_pauli(b)
-        add('bsf_to_pauli', 'of_bsf ' + bitstr(b), s, bitstr(b))
-        if not np.array_equal(pt.pauli_to_bsf(s), b):
-            ctx.violation('roundtrip-bsf', 'pauli_to_bsf(bsf_to_pauli(b)) != b', {'bsf': bitstr(b)})
-        ctx.count(bitstr(b), nontrivial(s), 'single-bsf')
+        b = np.array(fill(rng, 1, 2 * n, any_fill(rng))[0])
+
+        def single_bsf(b=b):
+            s = pt.bsf_to_pauli(b)
+            if not isinstance(s, str):
+                ctx.violation('roundtrip-bsf', 'bsf_to_pauli of a vector is not a string: ' + describe(s),
+                              {'bsf': bitstr(b)})
+                return
+            add('bsf_to_pauli', 'of_bsf ' + bitstr(b), s, bitstr(b))
+            if not np.array_equal(pt.pauli_to_bsf(s), b):
+                ctx.violation('roundtrip-bsf', 'pauli_to_bsf(bsf_to_pauli(b)) != b', {'bsf': bitstr(b)})
+            ctx.count(bitstr(b), nontrivial(s), 'single-bsf')
+        guard(ctx, {'fn': 'bsf_to_pauli', 'bsf': bitstr(b)}, single_bsf)
 
     # ---- 2. pairs: bsp vs commutation, symmetry, bilinearity ----------------------------
     pair_n = ctx.pick(3, 4)
@@ -115,123 +139,206 @@ def run(ctx):
         if s not in cache:
             cache[s] = pt.pauli_to_bsf(s)
         return cache[s]
-    for (s, t) in pairs:
+    # an operator against the identity, itself, and its letter-wise neighbours, at every size of the random range
+    for _ in range(ctx.pick(150, 1500)):
+        n = rng.randint(1, rand_n)
+        s = rand_pauli(rng, n, rng.randrange(3))
+        pairs += [(s, 'I' * n), ('I' * n, s), (s, s), ('I' * n, 'I' * n)]
+
+    def pair(s, t):
         a, b = tb(s), tb(t)
         v = pt.bsp(a, b)
+        prob = array_problem(v, ())
+        if prob:
+            ctx.violation('bsp-shapes', 'bsp of two vectors: ' + prob, {'a': s, 'b': t})
+            return
         add('bsp', 'bsp %s %s' % (bitstr(a), bitstr(b)), str(int(v)), (s, t))
         ctx.count((s, t), nontrivial(s) and nontrivial(t) and s != t, 'pair',
                   {'a': s, 'b': t, 'bsp': int(v)} if len(s) == 6 else None)
         if int(v) != anti_truth(s, t):
             ctx.violation('bsp-commutation', 'bsp != anticommutation parity', {'a': s, 'b': t, 'bsp': int(v)})
-        if int(pt.bsp(b, a)) != int(v):
-            ctx.violation('bsp-symmetry', 'bsp(a,b) != bsp(b,a)', {'a': s, 'b': t})
+        w = pt.bsp(b, a)
+        if array_problem(w, ()) or int(w) != int(v):
+            ctx.violation('bsp-symmetry', 'bsp(a,b) != bsp(b,a)', {'a': s, 'b': t, 'bsp(b,a)': describe(w)})
+    for (s, t) in pairs:
+        guard(ctx, {'fn': 'bsp', 'a': s, 'b': t}, lambda: pair(s, t))
     for _ in range(ctx.pick(500, 5000)):
         n = rng.randint(1, 30)
-        a, b, c = (np.array([rng.randint(0, 1) for _ in range(2 * n)]) for _ in range(3))
-        if int(pt.bsp(a ^ b, c)) != (int(pt.bsp(a, c)) ^ int(pt.bsp(b, c))) or \
-                int(pt.bsp(c, a ^ b)) != (int(pt.bsp(c, a)) ^ int(pt.bsp(c, b))):
-            ctx.violation('bsp-bilinear', 'bsp not bilinear', {'a': bitstr(a), 'b': bitstr(b), 'c': bitstr(c)})
+        a, b, c = (np.array(fill(rng, 1, 2 * n, any_fill(rng))[0]) for _ in range(3))
+        if rng.random() < 0.1:
+            b = a.copy()  # a ^ a is the identity
+
+        def triple(a=a, b=b, c=c):
+            vals = [pt.bsp(a ^ b, c), pt.bsp(a, c), pt.bsp(b, c), pt.bsp(c, a ^ b), pt.bsp(c, a), pt.bsp(c, b)]
+            probs = [p for p in (array_problem(v, ()) for v in vals) if p]
+            if probs:
+                ctx.violation('bsp-shapes', 'bsp of two vectors: ' + probs[0],
+                              {'a': bitstr(a), 'b': bitstr(b), 'c': bitstr(c)})
+                return
+            vals = [int(v) for v in vals]
+            if vals[0] != (vals[1] ^ vals[2]) or vals[3] != (vals[4] ^ vals[5]):
+                ctx.violation('bsp-bilinear', 'bsp not bilinear', {'a': bitstr(a), 'b': bitstr(b), 'c': bitstr(c)})
+        guard(ctx, {'fn': 'bsp', 'a': bitstr(a), 'b': bitstr(b), 'c': bitstr(c)}, triple)
         ctx.count(None, False, 'triple')
 
     # ---- 3. matrix shapes ----------------------------------------------------------------
     for _ in range(ctx.pick(600, 6000)):
         n = rng.randint(1, 12)
         ra, rb = rng.randint(1, 4), rng.randint(1, 4)
-        A = np.array([[rng.randint(0, 1) for _ in range(2 * n)] for _ in range(ra)])
-        B = np.array([[rng.randint(0, 1) for _ in range(2 * n)] for _ in range(rb)])
-        mm = pt.bsp(A, B.T)
-        add('bsp(mat,mat)', 'bsp_mm %s %s %d' % (rowsstr(A), rowsstr(B.T), rb), rowsstr(mm), None)
-        vm = pt.bsp(A[0], B.T)
-        add('bsp(vec,mat)', 'bsp_vm %s %s %d' % (bitstr(A[0]), rowsstr(B.T), rb), bitstr(vm), None)
-        mv = pt.bsp(A, B[0])
-        add('bsp(mat,vec)', 'bsp_mv %s %s' % (rowsstr(A), bitstr(B[0])), bitstr(mv), None)
-        for i in range(ra):
-            for j in range(rb):
-                e = int(pt.bsp(A[i], B[j]))
-                if int(mm[i][j]) != e or (i == 0 and int(vm[j]) != e) or (j == 0 and int(mv[i]) != e):
-                    ctx.violation('bsp-shapes', 'matrix forms disagree with vector form',
-                                  {'A': rowsstr(A), 'B': rowsstr(B), 'i': i, 'j': j})
-        ss = pt.bsf_to_pauli(A)
-        add('bsf_to_pauli(2d)', 'of_bsf_list ' + rowsstr(A), ','.join(ss), None)
-        add('pauli_to_bsf(list)', 'to_bsf_list ' + ','.join(ss), rowsstr(pt.pauli_to_bsf(ss)), None)
-        add('pauli_wt(list)', 'pauli_wt_list ' + ','.join(ss), str(int(pt.pauli_wt(ss))), None)
-        add('bsf_wt(2d)', 'bsf_wt_rows ' + rowsstr(A), str(int(pt.bsf_wt(A))), None)
-        if not np.array_equal(pt.pauli_to_bsf(ss), A):
-            ctx.violation('roundtrip-list', 'list round trip fails', {'A': rowsstr(A)})
-        if int(pt.bsf_wt(A)) != sum(sum(1 for ch in s if ch != 'I') for s in ss):
-            ctx.violation('weight-2d', '2d weight is not the sum of the row weights', {'A': rowsstr(A)})
-        ctx.count(rowsstr(A) + '|' + rowsstr(B), any(nontrivial(s) for s in ss) and ra > 1 and rb > 1, 'matrix',
-                  {'A': rowsstr(A), 'B': rowsstr(B)} if n == 3 else None)
+        A = np.array(fill(rng, ra, 2 * n, any_fill(rng))).reshape(ra, 2 * n)
+        B = np.array(fill(rng, rb, 2 * n, any_fill(rng))).reshape(rb, 2 * n)
+
+        def matrix(n=n, ra=ra, rb=rb, A=A, B=B):
+            rp = {'A': rowsstr(A), 'B': rowsstr(B), 'call': 'bsp(A, B.T), bsp(A[0], B.T), bsp(A, B[0])'}
+            mm = pt.bsp(A, B.T)
+            vm = pt.bsp(A[0], B.T)
+            mv = pt.bsp(A, B[0])
+            for what, r, shape in (('bsp(A, B.T)', mm, (ra, rb)), ('bsp(A[0], B.T)', vm, (rb,)),
+                                   ('bsp(A, B[0])', mv, (ra,))):
+                prob = array_problem(r, shape)
+                if prob:
+                    ctx.violation('bsp-shapes', '%s with A %d x %d, B %d x %d: %s' % (what, ra, 2 * n, rb, 2 * n, prob),
+                                  dict(rp, expected_shape=list(shape), got=describe(r)))
+                    return
+            add('bsp(mat,mat)', 'bsp_mm %s %s %d' % (rowsstr(A), rowsstr(B.T), rb), rowsstr(mm), None)
+            add('bsp(vec,mat)', 'bsp_vm %s %s %d' % (bitstr(A[0]), rowsstr(B.T), rb), bitstr(vm), None)
+            add('bsp(mat,vec)', 'bsp_mv %s %s' % (rowsstr(A), bitstr(B[0])), bitstr(mv), None)
+            for i in range(ra):
+                for j in range(rb):
+                    e = int(pt.bsp(A[i], B[j]))
+                    if int(mm[i][j]) != e or (i == 0 and int(vm[j]) != e) or (j == 0 and int(mv[i]) != e):
+                        ctx.violation('bsp-shapes', 'matrix forms disagree with vector form', dict(rp, i=i, j=j))
+            ss = pt.bsf_to_pauli(A)
+            if not (isinstance(ss, list) and len(ss) == ra and all(isinstance(x, str) and len(x) == n for x in ss)):
+                ctx.violation('roundtrip-list', 'bsf_to_pauli of a %d x %d array is not a list of %d strings: %s'
+                              % (ra, 2 * n, ra, describe(ss)), {'A': rowsstr(A)})
+                return
+            add('bsf_to_pauli(2d)', 'of_bsf_list ' + rowsstr(A), ','.join(ss), None)
+            back = pt.pauli_to_bsf(ss)
+            prob = array_problem(back, (ra, 2 * n))
+            if prob:
+                ctx.violation('bsf-shape', 'pauli_to_bsf of a list of %d strings: %s' % (ra, prob), {'paulis': ss})
+                return
+            add('pauli_to_bsf(list)', 'to_bsf_list ' + ','.join(ss), rowsstr(back), None)
+            pw, bw = pt.pauli_wt(ss), pt.bsf_wt(A)
+            if int_problem(pw) or int_problem(bw):
+                ctx.violation('weight-2d', 'a weight is not an integer: pauli_wt %s, bsf_wt %s'
+                              % (describe(pw), describe(bw)), {'A': rowsstr(A)})
+                return
+            add('pauli_wt(list)', 'pauli_wt_list ' + ','.join(ss), str(int(pw)), None)
+            add('bsf_wt(2d)', 'bsf_wt_rows ' + rowsstr(A), str(int(bw)), None)
+            if not np.array_equal(back, A):
+                ctx.violation('roundtrip-list', 'list round trip fails', {'A': rowsstr(A)})
+            if int(bw) != sum(sum(1 for ch in s if ch != 'I') for s in ss):
+                ctx.violation('weight-2d', '2d weight is not the sum of the row weights', {'A': rowsstr(A)})
+            ctx.count(rowsstr(A) + '|' + rowsstr(B), any(nontrivial(s) for s in ss) and ra > 1 and rb > 1, 'matrix',
+                      {'A': rowsstr(A), 'B': rowsstr(B)} if n == 3 else None)
+        guard(ctx, {'fn': 'bsp (stacked forms), conversions and weights of a stacking', 'A': rowsstr(A),
+                    'B': rowsstr(B)}, matrix)
 
     # ---- 4. ipauli / ibsf ----------------------------------------------------------------
     imax = ctx.pick(5, 6)
-    for n in range(0, imax + 1):
+
+    def ipauli_case(n, lo, hi):
+        seq = list(pt.ipauli(n, lo, hi))
+        if not all(isinstance(x, str) for x in seq):
+            ctx.violation('ipauli-complete', 'ipauli yields something that is not a string',
+                          {'n': n, 'lo': lo, 'hi': hi, 'got': [describe(x) for x in seq if not isinstance(x, str)][:3]})
+            return
+        add('ipauli', 'ipauli %d %d %d' % (n, lo, hi), ','.join(seq) if seq else '-', (n, lo, hi))
+        ctx.count(('ipauli', n, lo, hi), n >= 2 and hi >= 1, 'ipauli',
+                  {'ipauli': [n, lo, hi], 'first': seq[:4], 'len': len(seq)} if (n, lo, hi) == (3, 1, 2) else None)
+        ws = [sum(1 for ch in s if ch != 'I') for s in seq]
+        truth = set(''.join(p) for p in itertools.product(LET, repeat=n)
+                    if lo <= sum(1 for ch in p if ch != 'I') <= hi)
+        if len(seq) != len(set(seq)):
+            ctx.violation('ipauli-dup', 'ipauli yields a duplicate', {'n': n, 'lo': lo, 'hi': hi})
+        if set(seq) != truth:
+            ctx.violation('ipauli-complete', 'ipauli does not yield exactly the Paulis in the weight range',
+                          {'n': n, 'lo': lo, 'hi': hi, 'missing': sorted(truth - set(seq))[:5],
+                           'extra': sorted(set(seq) - truth)[:5]})
+        if ws != sorted(ws):
+            ctx.violation('ipauli-order', 'ipauli weights decrease', {'n': n, 'lo': lo, 'hi': hi})
+        if n <= 4:
+            bs = list(pt.ibsf(n, lo, hi))
+            probs = [p for p in (array_problem(b, (2 * n,)) for b in bs) if p]
+            if probs:
+                ctx.violation('ibsf', 'ibsf yields something that is not a binary vector of length 2n: ' + probs[0],
+                              {'n': n, 'lo': lo, 'hi': hi})
+                return
+            bseq = [bitstr(b) for b in bs]
+            add('ibsf', 'ibsf %d %d %d' % (n, lo, hi), ','.join(bseq) if bseq else '-', (n, lo, hi))
+            if bseq != [bitstr(pt.pauli_to_bsf(s)) for s in seq]:
+                ctx.violation('ibsf', 'ibsf is not pauli_to_bsf of ipauli', {'n': n, 'lo': lo, 'hi': hi})
+    for n in range(1, imax + 1):  # zero qubits: c09_shapes (shape-carrying protocol)
         for lo in range(0, n + 1):
             for hi in range(lo, n + 1):
-                if n == 0:
-                    continue
-                seq = list(pt.ipauli(n, lo, hi))
-                add('ipauli', 'ipauli %d %d %d' % (n, lo, hi), ','.join(seq) if seq else '-', (n, lo, hi))
-                ctx.count(('ipauli', n, lo, hi), n >= 2 and hi >= 1, 'ipauli',
-                          {'ipauli': [n, lo, hi], 'first': seq[:4], 'len': len(seq)} if (n, lo, hi) == (3, 1, 2) else None)
-                ws = [sum(1 for ch in s if ch != 'I') for s in seq]
-                truth = set(''.join(p) for p in itertools.product(LET, repeat=n)
-                            if lo <= sum(1 for ch in p if ch != 'I') <= hi)
-                if len(seq) != len(set(seq)):
-                    ctx.violation('ipauli-dup', 'ipauli yields a duplicate', {'n': n, 'lo': lo, 'hi': hi})
-                if set(seq) != truth:
-                    ctx.violation('ipauli-complete', 'ipauli does not yield exactly the Paulis in the weight range',
-                                  {'n': n, 'lo': lo, 'hi': hi, 'missing': sorted(truth - set(seq))[:5],
-                                   'extra': sorted(set(seq) - truth)[:5]})
-                if ws != sorted(ws):
-                    ctx.violation('ipauli-order', 'ipauli weights decrease', {'n': n, 'lo': lo, 'hi': hi})
-                if n <= 4:
-                    bseq = [bitstr(b) for b in pt.ibsf(n, lo, hi)]
-                    add('ibsf', 'ibsf %d %d %d' % (n, lo, hi), ','.join(bseq) if bseq else '-', (n, lo, hi))
-                    if bseq != [bitstr(pt.pauli_to_bsf(s)) for s in seq]:
-                        ctx.violation('ibsf', 'ibsf is not pauli_to_bsf of ipauli', {'n': n, 'lo': lo, 'hi': hi})
+                guard(ctx, {'fn': 'ipauli/ibsf', 'n': n, 'min_weight': lo, 'max_weight': hi},
+                      lambda: ipauli_case(n, lo, hi))
     # default arguments and prefixes on larger n
-    for n in range(1, ctx.pick(9, 13)):
+    import math
+
+    def prefix_case(n):
         it = pt.ipauli(n)
         pre = list(itertools.islice(it, 300))
         full = ctx.model('c09', ['ipauli %d 0 %d' % (n, min(n, 2))])[0].split(',')
-        ctx.cmp('ipauli(default,prefix)', n, pre[:min(len(pre), len(full))], full[:min(len(pre), len(full))])
+        if not ctx.cmp('ipauli(default,prefix)', n, pre[:min(len(pre), len(full))], full[:min(len(pre), len(full))]):
+            ctx.violation('ipauli-order', 'ipauli(n) with default weights does not start as the model\'s enumeration',
+                          {'n': n, 'got_first': [repr(x)[:40] for x in pre[:6]], 'model_first': full[:6]})
         ctx.count(('ipauli-prefix', n), True, 'ipauli-prefix')
-        import math
         for w in range(0, (n if n <= 8 else 3) + 1):
             cnt = sum(1 for _ in pt.ipauli(n, w, w))
             if cnt != math.comb(n, w) * 3 ** w:
                 ctx.violation('ipauli-count', 'wrong number of weight-w Paulis', {'n': n, 'w': w, 'count': cnt})
+    for n in range(1, ctx.pick(9, 13)):
+        guard(ctx, {'fn': 'ipauli', 'n': n, 'call': 'ipauli(n) and ipauli(n, w, w)'}, lambda: prefix_case(n))
 
     # ---- 5. pack / unpack ------------------------------------------------------------------
     lens = list(range(0, 131)) + [rng.randint(131, ctx.pick(1500, 5000)) for _ in range(ctx.pick(40, 300))]
     kcases = []
+
+    def pack_case(L, v, keep):
+        h, ln = pt.pack(v)
+        if not (isinstance(h, str) and int_problem(ln) is None):
+            ctx.violation('pack-shape', 'pack does not return (hex string, length): %s, %s' % (describe(h), describe(ln)),
+                          {'bits': bitstr(v)})
+            return
+        add('pack', 'pack ' + bitstr(v), '%s %d' % (h if h else '-', ln), bitstr(v))
+        u = pt.unpack((h, ln))
+        prob = array_problem(u, (L,))
+        if prob:
+            ctx.violation('pack-roundtrip', 'unpack(pack(v)) is not a binary vector of the length of v: ' + prob,
+                          {'bits': bitstr(v), 'packed': [h, ln]})
+            return
+        add('unpack', 'unpack %s %d' % (h if h else '-', ln), bitstr(u), (h, ln))
+        ctx.count(('pack', bitstr(v)), L % 8 != 0 and v.any(), 'pack',
+                  {'bits': bitstr(v), 'packed': [h, ln]} if L == 11 else None)
+        if not (np.array_equal(u, v) and len(u) == L):
+            ctx.violation('pack-roundtrip', 'unpack(pack(v)) != v', {'bits': bitstr(v), 'packed': [h, ln]})
+        if ln != L or len(h) != 2 * ((L + 7) // 8):
+            ctx.violation('pack-shape', 'packed length fields wrong', {'bits': bitstr(v), 'packed': [h, ln]})
+        if keep:
+            kcases.append((v.tolist(), h, ln))
     for L in lens:
-        for rep in range(2 if L <= 130 else 1):
+        for rep in range(3 if L <= 130 else 1):
             v = np.array([rng.randint(0, 1) for _ in range(L)], dtype=int)
             if L and rep == 1:
                 v[:] = 0
                 v[rng.randrange(L)] = 1
-            h, ln = pt.pack(v)
-            add('pack', 'pack ' + bitstr(v), '%s %d' % (h if h else '-', ln), bitstr(v))
-            u = pt.unpack((h, ln))
-            add('unpack', 'unpack %s %d' % (h if h else '-', ln), bitstr(u), (h, ln))
-            ctx.count(('pack', bitstr(v)), L % 8 != 0 and v.any(), 'pack',
-                      {'bits': bitstr(v), 'packed': [h, ln]} if L == 11 else None)
-            if not (np.array_equal(u, v) and len(u) == L):
-                ctx.violation('pack-roundtrip', 'unpack(pack(v)) != v', {'bits': bitstr(v), 'packed': [h, ln]})
-            if ln != L or len(h) != 2 * ((L + 7) // 8):
-                ctx.violation('pack-shape', 'packed length fields wrong', {'bits': bitstr(v), 'packed': [h, ln]})
-            if L <= 130 and rep == 0:
-                kcases.append((v.tolist(), h, ln))
+            if rep == 2:
+                v[:] = rng.randint(0, 1)  # all zeros / all ones of every length
+            guard(ctx, {'fn': 'pack/unpack', 'bits': bitstr(v)}, lambda: pack_case(L, v, L <= 130 and rep == 0))
     # injectivity on same-length near misses
     for _ in range(ctx.pick(200, 2000)):
         L = rng.randint(1, 100)
         v = np.array([rng.randint(0, 1) for _ in range(L)], dtype=int)
         w = v.copy()
         w[rng.randrange(L)] ^= 1
-        if pt.pack(v) == pt.pack(w):
-            ctx.violation('pack-injective', 'two different arrays pack alike', {'v': bitstr(v), 'w': bitstr(w)})
+
+        def inj(v=v, w=w):
+            if pt.pack(v) == pt.pack(w):
+                ctx.violation('pack-injective', 'two different arrays pack alike', {'v': bitstr(v), 'w': bitstr(w)})
+        guard(ctx, {'fn': 'pack', 'v': bitstr(v), 'w': bitstr(w)}, inj)
         ctx.count(None, False, 'pack-inj')
 
     # ---- 6. malformed stream ---------------------------------------------------------------
@@ -253,24 +360,52 @@ def run(ctx):
     # ---- 7. usage patterns: iterator consumption and call histories (own model batches) -----
     c09_extra.run(ctx, pt)
 
+    # ---- 8. degenerate operands and result shapes (shape-carrying model protocol) -------------
+    c09_shapes.run(ctx, pt)
+
     # ---- correspondence with the extracted model ------------------------------------------
     out = ctx.model('c09', req)
     for (fn, inp, impl), m, line in zip(exp, out, req):
-        ctx.cmp(fn, line[:400], impl, m)
+        if not ctx.cmp(fn, line[:400], impl, m):
+            # the model's answer is the expected value: this request is a concrete failing input
+            ctx.violation('model-' + fn.split('(')[0], 'the answer is not the model\'s answer',
+                          {'fn': fn, 'request': line[:600], 'got': str(impl)[:400], 'expected_by_model': m[:400]})
 
     # ---- in-kernel shard: a sample re-evaluated by vm_compute -------------------------------
     samp = [s for s in strings if 0 < len(s) <= 60][:: max(1, len(strings) // 150)][:150]
     items = []
-    for s in samp:
+    def k_single(s):
         b = pt.pauli_to_bsf(s)
         ps = coq_list(['p' + ch for ch in s])
         items.append('(beqv (to_bsf %s) %s && (pauli_wt %s =? %d) && (bsf_wt %s =? %d))'
                      % (ps, coq_bits(b.tolist()), ps, int(pt.pauli_wt(s)), coq_bits(b.tolist()), int(pt.bsf_wt(b))))
+
+    def k_pair(s, t):
+        items.append('(Bool.eqb (bsp %s %s) %s)' % (coq_bits(tb(s).tolist()), coq_bits(tb(t).tolist()),
+                                                    'true' if int(pt.bsp(tb(s), tb(t))) else 'false'))
+
+    def k_stack(A, K):
+        # a stacked product, its shape included: m rows, every row of length k, entries as the implementation's
+        r = pt.bsp(A, K.T)
+        if array_problem(r, (A.shape[0], K.shape[0])):
+            ctx.violation('bsp-shapes', 'bsp(A, B.T): ' + array_problem(r, (A.shape[0], K.shape[0])),
+                          {'A': rowsstr(A), 'B': rowsstr(K), 'got': describe(r)})
+            return
+        call = '(bsp_mm %s %s %d)' % (coq_list([coq_bits(x.tolist()) for x in A]),
+                                      coq_list([coq_bits(x.tolist()) for x in K.T]), K.shape[0])
+        items.append('((length %s =? %d) && forallb (fun r => length r =? %d) %s && beqv (concat %s) %s)'
+                     % (call, A.shape[0], K.shape[0], call, call, coq_bits(r.reshape(-1).tolist())))
+    for s in samp:
+        guard(ctx, {'fn': 'pauli_to_bsf/pauli_wt/bsf_wt', 'pauli': s}, lambda: k_single(s))
     for (s, t) in pairs[:: max(1, len(pairs) // 150)][:150]:
         if len(s) > 60:
             continue
-        items.append('(Bool.eqb (bsp %s %s) %s)' % (coq_bits(tb(s).tolist()), coq_bits(tb(t).tolist()),
-                                                    'true' if int(pt.bsp(tb(s), tb(t))) else 'false'))
+        guard(ctx, {'fn': 'bsp', 'a': s, 'b': t}, lambda: k_pair(s, t))
+    for _ in range(40):
+        n, ra, rb = rng.randint(1, 4), rng.randint(1, 3), rng.randint(1, 3)
+        A = np.array(fill(rng, ra, 2 * n, rng.choice(c09_shapes.FILLS))).reshape(ra, 2 * n)
+        K = np.array(fill(rng, rb, 2 * n, rng.choice(c09_shapes.FILLS))).reshape(rb, 2 * n)
+        guard(ctx, {'fn': 'bsp', 'A': rowsstr(A), 'B': rowsstr(K), 'call': 'bsp(A, B.T)'}, lambda: k_stack(A, K))
     hexmap = {c: '(%s,%s,%s,%s)' % tuple('true' if (int(c, 16) >> k) & 1 else 'false' for k in (3, 2, 1, 0))
               for c in '0123456789abcdef'}
     for (v, h, ln) in kcases[::3]:
